@@ -474,6 +474,8 @@ class Ev:
     kw = self.kw(n, {"axis"})
     a = as_T(self.expr(n.args[0]), self.where(n))
     axis = ast.literal_eval(kw["axis"]) if "axis" in kw else (ast.literal_eval(n.args[1]) if len(n.args) > 1 else None)
+    if axis is None and len(a.idx) == 1:
+      axis = 0                          # a vector has one axis: numpy.sum(v) is the sum over it
     if axis is None:
       raise TranslationError(f"{self.where(n)}: reduction without axis")
     if axis < 0:
